@@ -2,7 +2,7 @@
    optional query on a path that exists in every branch. *)
 From Coq Require Import List Ascii String ZArith NArith Bool Arith Lia.
 From YP Require Import Outcome PyStr PyVal Doc Generated PathParser PathPrinter Searches Eval SpecC01 SpecC15
-  EvalSem EvalSemLib EvalSemSeg EvalSemPath SpecC01Facts EvalGood EvalHandlers EvalTotal.
+  EvalSem EvalSemLib EvalSemSeg EvalSemPath SpecC01Facts EvalGood EvalHandlers EvalTotal C08Spec RtTables.
 Import ListNotations.
 Open Scope string_scope.
 Open Scope nat_scope.
@@ -157,3 +157,17 @@ Proof.
 Qed.
 
 End Top.
+
+(* ---- notation: the dot text and the forward-slash text of the same segments
+   parse (separator inferred, as the evaluator does) to the same escaped
+   segments -- the only part of a prepared path [sem_path] reads, search
+   attributes being part of the segment.  Corollary of C08. ---- *)
+Theorem notation_same_segments (l : list sseg) :
+  wf Dot l = true -> wf Slash l = true -> first_not_in ["/"%char] (render_ref Dot l) = true ->
+  parse Auto true (render_ref Dot l) = Ok (segs_of l) /\
+  parse Auto true (render_ref Slash l) = Ok (segs_of l).
+Proof.
+  intros Hd Hs Hf. split.
+  - apply parse_render_auto; [exact Hd | intros _; exact Hf].
+  - apply parse_render_auto; [exact Hs | intros H; discriminate H].
+Qed.
